@@ -110,7 +110,7 @@ def lookahead_nodes(full, orig, n_sym, T, last=None):
 def sub_rows(w, orig):
     """Rows (as original indices) whose path uses only the first two spot symbols: removing
     the other paths changes every batch-level statistic (max, min, mean) of the market."""
-    two = w["ul"] in market.TWO_FACTOR and w.get("Av")
+    two = w["ul"] in hw.TWO_FACTOR and w.get("Av")
     nv = len(w["Av"]) if two else 1
     n = len(w["As"]) * nv
     idx = all_paths(list(range(n)), w["T"]).long()[orig]
@@ -342,7 +342,12 @@ def feature_tree(ctx, block):
 # ----------------------------------------------------------------------------
 
 def _mode(m):
-    return "ww" if m["model"] == "ww" else m.get("mode", "vectorised")
+    base = "ww" if m["model"] == "ww" else m.get("mode", "vectorised")
+    if m.get("module_mode"):
+        base += "/" + m["module_mode"]
+    if m.get("user_hook"):
+        base += "/hook_" + m["user_hook"]
+    return base
 
 
 @family
@@ -498,6 +503,202 @@ def hedge_reuse(ctx, block):
         ctx.outcome(("reuse", tag, w["ul"], w.get("kind"), H, k, round(float(hedge.nan_to_num(nan=7.0).sum()), 9)))
 
 
+@family
+def hedge_cross(ctx, block):
+    """Cross hedge: the hedging instrument lives on ANOTHER stock whose series is shorter (T_h = T - short)
+    than the series of the derivative's underlier.  Whatever columns compute_hedge returns (T_h or T of
+    them) must be adapted to the underlier's filtration, end with a repeated column, and for j < T_h - 1
+    equal the hedge the same hedger computes at step j when it hedges with the underlier itself
+    (= model(features at step j)); the all-at-once and the step-by-step evaluation agree there."""
+    w, m = block["world"], block["model"]
+    T = w["T"]
+    site = "Hedger.compute_hedge"
+    results = {}
+    for mode in ("vectorised", "stepwise"):
+        mm = dict(m, mode=mode)
+        world = hw.build_world(w)
+        N, n_sym, orig = world.N, world.n_sym, world.orig
+        hl, Th = hw.cross_hedge(world, block["short"], block.get("instrument", "primary"))
+        kit = hw.make_hedger(mm, world, ctx.seed)
+        tag = f"{_mode(mm)}:{m['model']}"
+        desc = (f"model={m['model']} mode={mode} inputs={[hw.label(s) for s in kit.specs]} {w['ul']}/{w.get('kind')} "
+                f"hedged with a {block.get('instrument', 'primary')} on another stock: {Th} of {T} steps")
+        ok, hedge = _guard(ctx, site, "cross_hedge:" + tag, desc, block, lambda: kit.hedger.compute_hedge(world.d, hedge=hl))
+        if not ok:
+            continue
+        ref_world = hw.build_world(w)
+        ref_kit = hw.make_hedger(mm, ref_world, ctx.seed)
+        with torch.no_grad():
+            ref = ref_kit.hedger.compute_hedge(ref_world.d)    # hedged with the underlier: all T steps
+        Tr = hedge.size(-1)
+        nodes, edges = node_counts(orig, n_sym, T)
+        ctx.add("states", nodes)
+        ctx.add("transitions", edges)
+        ctx.add("traces_validated_against_impl", N)
+        ctx.tick(nodes + N, nontrivial=nodes)
+        if hedge.dim() != 3 or tuple(hedge.shape[:2]) != (N, 1) or Tr not in (Th, T):
+            ctx.violation(site, f"cross_hedge:shape:{tag}", f"hedge shape {tuple(hedge.shape)} ({desc})",
+                          observed=list(hedge.shape), expected=[N, 1, f"{Th} or {T}"], block=block)
+            continue
+        tol = 0.0 if kit.exact else hw.tol(world.dtype)
+        x = torch.cat([hedge, hedge[..., -1:].expand(-1, -1, T - Tr)], dim=-1).permute(0, 2, 1) if Tr < T else hedge.permute(0, 2, 1)
+        pairs = prefix_pairs(x, orig, n_sym, T, rtol=tol, atol=tol, cols=range(Tr - 1))
+        for (t, a, b) in pairs[:1]:
+            ctx.violation(site, f"cross_hedge:anticipates:{tag}",
+                          f"hedge[:, :, {t}] differs between two paths of the derivative's underlier that agree up to "
+                          f"step {t} ({desc})",
+                          observed={"path_a": world.spot[a].tolist(), "path_b": world.spot[b].tolist(),
+                                    "hedge_a": hedge[a].tolist(), "hedge_b": hedge[b].tolist()},
+                          expected=f"identical hedge ratios for steps 0..{t}", block=block)
+        same = (hedge[..., -1] == hedge[..., -2]) | (hedge[..., -1].isnan() & hedge[..., -2].isnan())
+        if not same.all():
+            ctx.violation(site, f"cross_hedge:trades_at_maturity:{tag}", f"hedge[..., -1] != hedge[..., -2] ({desc})",
+                          block=block)
+        good = _close(hedge[..., : Th - 1], ref[..., : Th - 1], kit.exact)
+        if not good.all():
+            r = int((~good).flatten(1).any(1).nonzero()[0])
+            j = int((~good)[r].any(0).nonzero()[0])
+            ctx.violation(site, f"cross_hedge:not_the_model_at_step_j:{tag}",
+                          f"hedge[:, :, {j}] is not the model evaluated on the features of step {j} ({desc})",
+                          observed={"path": world.spot[r].tolist(), "hedge": hedge[r].tolist()},
+                          expected={"hedge with the underlier": ref[r].tolist()}, block=block)
+        results[mode] = (hedge, kit.exact, Th)
+        ctx.outcome(("cross", tag, w["ul"], w.get("kind"), block["short"], Tr,
+                     round(float(hedge.nan_to_num(nan=7.0).sum()), 9)))
+    if len(results) == 2:
+        (hv, exact, Th), (hs, _, _) = results["vectorised"], results["stepwise"]
+        good = _close(hv[..., : Th - 1], hs[..., : Th - 1], exact)
+        if not good.all():
+            ctx.violation(site, f"cross_hedge:batched!=stepwise:{m['model']}",
+                          f"the all-at-once and the step-by-step hedge differ on steps 0..{Th - 2} "
+                          f"(model={m['model']} {w['ul']}/{w.get('kind')}, {Th} of {T} steps)", block=block)
+
+
+def _shared_setup(world, seed, mo=None):
+    """Two hedgers A and B (different weights) whose input lists share ONE ModuleOutput object over
+    prev_hedge.  Returns (A, B, mo)."""
+    import pfhedge.features as PF
+    from pfhedge.nn import Hedger
+    H = world.H
+    if mo is None:
+        mo = PF.ModuleOutput(hw.make_module("linear", 1 + H, 1, world.dtype, seed + 17), inputs=["max_moneyness", "prev_hedge"])
+    A = Hedger(hw.make_module("linear", 2, H, world.dtype, seed + 3), ["moneyness", mo])
+    B = Hedger(hw.make_module("linear", 2, H, world.dtype, seed + 4), ["moneyness", mo])
+    return A, B, mo
+
+
+@family
+def hedge_shared_feature(ctx, block):
+    """One ModuleOutput-over-prev_hedge feature OBJECT in the input lists of two hedgers A and B, ONE
+    derivative object whose underlier is re-scripted between rounds (tree P, then the tree over the reversed
+    alphabet).  Sequence A, B, A, B: every evaluation is adapted, keeps the last column, and equals what a
+    fresh hedger with a fresh feature object gives on the current tree (B must read B's state, not A's)."""
+    w = block["world"]
+    T = w["T"]
+    site = "Hedger.compute_hedge"
+    world = hw.build_world(w)
+    N, n_sym, orig, H = world.N, world.n_sym, world.orig, world.H
+    A, B, mo = _shared_setup(world, ctx.seed)
+    variants = {"P": w, "Q": dict(w, As=list(reversed(w["As"])))}
+    for k, (who, tree) in enumerate(block.get("sequence", [["A", "P"], ["B", "P"], ["A", "Q"], ["B", "Q"], ["A", "Q"], ["B", "P"]])):
+        cur = hw.build_world(variants[tree])
+        market.script_primary(world.p, hw.BASE_UL.get(w["ul"], w["ul"]), cur.spot, cur.second)   # same derivative object
+        hedger = A if who == "A" else B
+        desc = (f"hedger {who} of two hedgers sharing one ModuleOutput(prev_hedge) feature object, evaluation #{k + 1} "
+                f"(tree {tree}) {w['ul']}/{w.get('kind')} H={H}")
+        ok, hedge = _guard(ctx, site, "shared_feature", desc, block,
+                           lambda: hedger.compute_hedge(world.d, hedge=world.hedge))
+        if not ok:
+            return
+        fa, fb, _ = _shared_setup(cur, ctx.seed)
+        fresh = fa if who == "A" else fb
+        with torch.no_grad():
+            ref = fresh.compute_hedge(cur.d, hedge=cur.hedge)
+        nodes, edges = node_counts(orig, n_sym, T)
+        ctx.add("states", nodes)
+        ctx.add("transitions", edges)
+        ctx.add("traces_validated_against_impl", N)
+        ctx.tick(nodes + N, nontrivial=(nodes + N) if k > 0 else 0)
+        if tuple(hedge.shape) != (N, H, T):
+            ctx.violation(site, "shared_feature:shape", f"hedge shape {tuple(hedge.shape)} ({desc})", block=block)
+            return
+        pairs = prefix_pairs(hedge.permute(0, 2, 1), orig, n_sym, T)
+        for (t, a, b) in pairs[:1]:
+            ctx.violation(site, "shared_feature:anticipates",
+                          f"hedge[:, :, {t}] differs between two paths that agree up to step {t} ({desc})",
+                          observed={"path_a": cur.spot[a].tolist(), "path_b": cur.spot[b].tolist(),
+                                    "hedge_a": hedge[a].tolist(), "hedge_b": hedge[b].tolist()},
+                          expected=f"identical hedge ratios for steps 0..{t}", block=block)
+        if not (hedge[..., -1] == hedge[..., -2]).all():
+            ctx.violation(site, "shared_feature:trades_at_maturity", f"hedge[..., -1] != hedge[..., -2] ({desc})", block=block)
+        good = _close(hedge, ref, True)
+        if not good.all():
+            r = int((~good).flatten(1).any(1).nonzero()[0])
+            ctx.violation(site, "shared_feature:reads_state_of_other_hedger",
+                          f"the hedge differs from the one a fresh hedger with its own feature object computes on the "
+                          f"same tree, on {int((~good).flatten(1).any(1).sum())}/{N} paths ({desc})",
+                          observed={"path": cur.spot[r].tolist(), "hedge": hedge[r].tolist()},
+                          expected={"hedge": ref[r].tolist()}, block=block)
+        ctx.outcome(("shared", w["ul"], w.get("kind"), H, k, round(float(hedge.sum()), 9)))
+
+
+@family
+def hedge_lazy(ctx, block):
+    """A model with LAZY parameters (MultiLayerPerceptron() with in_features=None: LazyLinear), never fitted:
+    its FIRST evaluation materialises it.  The first and a second evaluation on the same tree are identical
+    (same weights, the state starts from zero both times), adapted, and keep the last column.  Weights come
+    from torch.manual_seed inside a forked RNG (generic weights; the global RNG state is left untouched)."""
+    from pfhedge.nn import Hedger, MultiLayerPerceptron
+    w = block["world"]
+    T = w["T"]
+    site = "Hedger.compute_hedge"
+    world = hw.build_world(w)
+    N, n_sym, orig, H = world.N, world.n_sym, world.orig, world.H
+    inputs = ["moneyness", "time_to_maturity", "max_moneyness"] + (["prev_hedge"] if block["prev"] else [])
+    tag = "stepwise" if block["prev"] else "vectorised"
+    desc = f"lazy MultiLayerPerceptron inputs={inputs} {w['ul']}/{w.get('kind')} H={H}"
+    hedges = []
+    with torch.random.fork_rng():
+        torch.manual_seed(7000 + ctx.seed)
+        model = MultiLayerPerceptron(out_features=H, n_layers=2, n_units=4).to(world.dtype)
+        hedger = Hedger(model, inputs)
+        for k in range(2):
+            cur = hw.build_world(w)
+            ok, hedge = _guard(ctx, site, f"lazy:{tag}", desc + f", evaluation #{k + 1}", block,
+                               lambda: hedger.compute_hedge(cur.d, hedge=cur.hedge))
+            if not ok:
+                return
+            hedges.append(hedge)
+    tol = hw.tol(world.dtype)
+    for k, hedge in enumerate(hedges):
+        nodes, edges = node_counts(orig, n_sym, T)
+        ctx.add("states", nodes)
+        ctx.add("transitions", edges)
+        ctx.add("traces_validated_against_impl", N)
+        ctx.tick(nodes + N, nontrivial=nodes + N)
+        if tuple(hedge.shape) != (N, H, T):
+            ctx.violation(site, f"lazy:shape:{tag}", f"hedge shape {tuple(hedge.shape)} ({desc})", block=block)
+            return
+        pairs = prefix_pairs(hedge.permute(0, 2, 1), orig, n_sym, T, rtol=tol, atol=tol)
+        for (t, a, b) in pairs[:1]:
+            ctx.violation(site, f"lazy:anticipates:{tag}",
+                          f"evaluation #{k + 1}: hedge[:, :, {t}] differs between two paths that agree up to step {t} ({desc})",
+                          observed={"path_a": world.spot[a].tolist(), "path_b": world.spot[b].tolist(),
+                                    "hedge_a": hedge[a].tolist(), "hedge_b": hedge[b].tolist()},
+                          expected=f"identical hedge ratios for steps 0..{t}", block=block)
+        if not (hedge[..., -1] == hedge[..., -2]).all():
+            ctx.violation(site, f"lazy:trades_at_maturity:{tag}", f"evaluation #{k + 1}: last column != previous ({desc})",
+                          block=block)
+    if len(hedges) == 2 and not _close(hedges[0], hedges[1], False).all():
+        good = _close(hedges[0], hedges[1], False)
+        r = int((~good).flatten(1).any(1).nonzero()[0])
+        ctx.violation(site, f"lazy:first_evaluation_differs_from_second:{tag}",
+                      f"the evaluation that materialises the lazy model differs from the next one on the same tree ({desc})",
+                      observed={"path": world.spot[r].tolist(), "first": hedges[0][r].tolist()},
+                      expected={"second": hedges[1][r].tolist()}, block=block)
+    ctx.outcome(("lazy", tag, w["ul"], w.get("kind"), H, round(float(hedges[0].sum()), 6)))
+
+
 def _pl_at_maturity(ctx, block, hedge, tag, desc, grad, exact):
     """compute_pl / compute_portfolio / compute_loss (scripted simulate) in the same autograd mode, on
     fresh objects, against pl() of the hedge with the last column replaced by the held position
@@ -520,7 +721,7 @@ def _pl_at_maturity(ctx, block, hedge, tag, desc, grad, exact):
         if what == "loss":
             bufs = {"spot": world.spot.clone()}
             if world.second is not None:
-                bufs[market.TWO_FACTOR[w["ul"]]] = world.second.clone()
+                bufs[hw.TWO_FACTOR[w["ul"]]] = world.second.clone()
             sim = market.ScriptedSimulate(world.p, [bufs])
             ok, got = _guard(ctx, site, tag, desc, block,
                              lambda: kit.hedger.compute_loss(world.d, hedge=world.hedge, n_paths=world.N,
@@ -618,6 +819,16 @@ def model_specs(H, listed):
     return out
 
 
+def cross_models():
+    return [
+        {"model": "linear", "inputs": [{"f": "moneyness"}, {"f": "time_to_maturity"}, {"f": "volatility"}]},
+        {"model": "mlp", "inputs": [{"f": "max_moneyness"}, {"f": "barrier", "threshold": 1.0, "up": True},
+                                    {"f": "expiry_time"}]},
+        {"model": "user", "inputs": [{"f": "underlier_spot"}, {"f": "variance"}]},
+        {"model": "bs"},
+    ]
+
+
 def reuse_models(H):
     base = [{"f": "moneyness"}, {"f": "time_to_maturity"}]
     return [
@@ -629,6 +840,11 @@ def reuse_models(H):
         {"model": "linear", "inputs": base + [{"f": "volatility"}], "mode": "stepwise"},   # ignores it
         {"model": "bs", "mode": "stepwise"},
         {"model": "mlp", "inputs": base + [{"f": "max_moneyness"}], "mode": "vectorised"},
+        # a user's post-processing forward hook registered on the hedger
+        {"model": "linear", "inputs": base + [{"f": "prev_hedge"}], "user_hook": "lot"},
+        {"model": "linear", "inputs": base + [{"f": "volatility"}], "mode": "stepwise", "user_hook": "limit"},
+        {"model": "mlp", "inputs": base + [{"f": "max_moneyness"}], "mode": "vectorised", "user_hook": "lot",
+         "module_mode": "eval"},
     ]
 
 
@@ -648,7 +864,7 @@ def worlds(ctx):
     uls = ["brownian", "heston", "rough_bergomi", "local_vol", "merton", "kou", "cir", "vasicek"]
     out = []
     for ul in uls:
-        av = Av.get(market.TWO_FACTOR.get(ul))
+        av = Av.get(hw.TWO_FACTOR.get(ul))
         for kind in market.ALL_DERIVATIVE_KINDS:
             for call in ((True, False) if kind in market.OPTION_KINDS else (True,)):
                 for listed in (None, "dyadic", "bs", "varswap"):
@@ -673,7 +889,12 @@ def run(ctx):
              "of (feature | model) x derivative x underlier is decided dynamically: whatever evaluates without "
              "raising is in scope (others are counted as not applicable). hedge_reuse: one Hedger object on trees "
              "A, B, A, A of the same shape: same oracles on every call + equality with a fresh hedger. Worlds include "
-             "derivatives whose own maturity is shorter / longer than the registered time grid. Non-trivial = nodes below which the quantity takes a different value later on some leaf "
+             "derivatives whose own maturity is shorter / longer than the registered time grid. A sub-grid is repeated "
+             "with hedger.eval() and with a user's post-processing forward hook (lot rounding, position limit). "
+             "hedge_cross: hedging instrument on another stock with a series 1 or 2 steps shorter. hedge_shared_feature: "
+             "one ModuleOutput(prev_hedge) object shared by two hedgers on one re-scripted derivative. hedge_lazy: "
+             "first vs second evaluation of a never-fitted lazy MLP. Worlds include user subclasses of the "
+             "primaries overriding volatility/variance and variance scripts with negative and zero entries. Non-trivial = nodes below which the quantity takes a different value later on some leaf "
              "(peeking would be observable) + leaves whose position moves before maturity")
     ctx.assume("models that couple paths (batch normalisation) are outside the property and are not generated")
     ctx.assume("user-supplied pricers of listed derivatives are represented by the documentation's Black-Scholes "
@@ -684,7 +905,7 @@ def run(ctx):
     two_factor_conf = ("european", "variance_swap", "lookback")
     fblocks, hblocks = [], []
     for w in ws:
-        two = w["ul"] in market.TWO_FACTOR
+        two = w["ul"] in hw.TWO_FACTOR
         if ctx.quick:
             if w["ul"] in ("merton", "kou", "cir", "vasicek") and (w["kind"] not in ("european", "variance_swap")
                                                                      or w["listed"] == "bs"):
@@ -692,6 +913,9 @@ def run(ctx):
             if two and w["listed"] == "bs" and w["kind"] not in ("european", "lookback"):
                 continue
             if two and not w["call"] and w["kind"] != "european":
+                continue
+            if w["ul"] in ("rough_bergomi", "local_vol") and (w["kind"] not in ("european", "lookback", "variance_swap")
+                                                               or w["listed"] == "bs"):
                 continue
         conf = (not two) or (w["kind"] in two_factor_conf and w["listed"] in (None, "varswap"))
         fblocks.append({"world": w, "features": feature_specs(A, w["listed"]), "conformance": conf})
@@ -701,7 +925,7 @@ def run(ctx):
              "Av": [1 / 64, 1 / 16] if ul == "heston" else None, "dtype": "float32", "listed": "dyadic"}
         fblocks.append({"world": w, "features": feature_specs(A[:3], "dyadic"), "conformance": True})
     for w in ws:
-        two = w["ul"] in market.TWO_FACTOR
+        two = w["ul"] in hw.TWO_FACTOR
         if w["listed"] in ("bs", "varswap"):
             continue
         if ctx.quick:
@@ -710,6 +934,9 @@ def run(ctx):
             if w["ul"] == "rough_bergomi" and not w["call"]:
                 continue
             if not w["call"] and w["kind"] not in ("european", "european_binary"):
+                continue
+            if two and (w["kind"] not in ("european", "lookback", "variance_swap") or
+                        (not w["call"] and w["kind"] != "european")):
                 continue
         hedges = ["default"] if w["listed"] else ["default", "ul+listed"]
         if ctx.thorough and not w["listed"] and w["ul"] in ("brownian", "heston"):
@@ -753,6 +980,25 @@ def run(ctx):
         for m in model_specs(1, None):
             if hw.model_ok(m, wh):
                 hblocks.append({"world": wh, "model": m, "probe": False})
+    # USER SUBCLASSES of the primaries overriding documented properties (volatility term structure on a
+    # BrownianStock subclass, floored volatility on a HestonStock subclass), and variance scripts with
+    # negative and zero entries (register_buffer scenario sets; the volatility property clamps them)
+    for ul, kind, av in itertools.product(("brownian_ts", "heston_user", "heston", "rough_bergomi"),
+                                          ("european", "lookback") if ctx.quick else market.OPTION_KINDS,
+                                          ("std", "neg")):
+        if (av == "neg") != (ul in ("heston", "rough_bergomi")):
+            continue
+        if ctx.quick and ul == "rough_bergomi" and kind != "european":
+            continue
+        w = {"ul": ul, "kind": kind, "call": True, "T": T, "As": A[:3] if ctx.quick else A,
+             "Av": None if ul == "brownian_ts" else ([-1 / 64, 0.0, 1 / 16] if av == "neg" else [1 / 64, 1 / 16]),
+             "dtype": "float64", "listed": None}
+        fblocks.append({"world": w, "features": [f for f in feature_specs(w["As"], None)
+                                                  if av == "std" or f.get("module") != "bs"], "conformance": True})
+        wh = dict(w, hedge="default")
+        for m in model_specs(1, None):
+            if hw.model_ok(m, wh) and (av == "std" or m["model"] in ("linear", "mlp", "user")):
+                hblocks.append({"world": wh, "model": m, "probe": False})
     # every hedge block: positive transaction cost; autograd ON (the mode of fit / compute_loss; model
     # parameters require grad) next to autograd OFF (the mode of price); P&L and loss at maturity
     trainable = ("linear", "mlp", "user")
@@ -779,7 +1025,51 @@ def run(ctx):
             both.append(dict(b, grad=True, pl=with_pl and mb["model"] in trainable
                              and wb["ul"] in ("brownian", "heston")
                              and (ctx.thorough or wb["kind"] in ("european", "lookback"))))
-    hblocks = both
+    # module mode eval() (the mode price() runs in and the one fit() leaves behind) and a user's
+    # post-processing forward hook registered after construction, for a sub-grid of the configurations
+    extra = []
+    for b in both:
+        wb, mb = b["world"], b["model"]
+        if b["probe"] or b["grad"] or mb["model"] not in ("linear", "mlp", "bs", "user", "ww"):
+            continue
+        if wb["ul"] not in ("brownian", "heston") or wb["kind"] not in ("european", "lookback") or not wb["call"]:
+            continue
+        if wb.get("listed") or wb.get("mat_k") is not None or (ctx.quick and (wb["T"] not in (3, T) or wb["ul"] != "brownian"
+                                                                              and mb["model"] != "linear")):
+            continue
+        base = dict(b, coupling=False)
+        extra.append(dict(base, model=dict(mb, module_mode="eval"), pl=mb["model"] in ("linear", "bs")))
+        if mb["model"] != "ww":
+            extra.append(dict(base, model=dict(mb, user_hook="limit"), pl=False))
+            if mb["model"] in ("linear", "mlp", "user"):
+                extra.append(dict(base, model=dict(mb, user_hook="lot"), pl=False))
+    hblocks = both + extra
+    ctx.info["hedge_blocks_eval_or_hook"] = len(extra)
+    # cross hedges with a shorter series
+    cblocks = []
+    for ul, kind, short, instrument in itertools.product(("brownian", "heston"), ("european", "lookback"), (1, 2),
+                                                         ("primary", "listed")):
+        if ctx.quick and ul == "heston" and (kind != "european" or instrument != "primary"):
+            continue
+        wc = {"ul": ul, "kind": kind, "call": True, "T": T, "As": A[:3] if ctx.quick else A,
+              "Av": [1 / 64, 1 / 16] if ul == "heston" else None, "dtype": "float64", "listed": None, "hedge": "default"}
+        for mc_ in cross_models():
+            if hw.model_ok(mc_, wc):
+                cblocks.append({"world": wc, "model": mc_, "short": short, "instrument": instrument})
+    ctx.info["cross_blocks"] = len(cblocks)
+    # one ModuleOutput(prev_hedge) object shared by two hedgers; lazy models
+    sblocks, zblocks = [], []
+    for ul, kind, hv in itertools.product(("brownian", "heston"), ("european", "lookback"), ("default", "ul+listed")):
+        if ctx.quick and ul == "heston" and (kind != "european" or hv != "default"):
+            continue
+        wsb = {"ul": ul, "kind": kind, "call": True, "T": T, "As": A[:3] if ctx.quick else A,
+               "Av": [1 / 64, 1 / 16] if ul == "heston" else None, "dtype": "float64", "listed": None, "hedge": hv,
+               "cost": 1 / 128}
+        sblocks.append({"world": wsb})
+        for prev in (True, False):
+            zblocks.append({"world": wsb, "prev": prev})
+    ctx.info["shared_feature_blocks"] = len(sblocks)
+    ctx.info["lazy_blocks"] = len(zblocks)
     # the same Hedger object on several trees in sequence
     ublocks = []
     for ul, kind, hv in itertools.product(["brownian", "heston"] if ctx.quick else ["brownian", "heston", "local_vol", "kou"],
@@ -802,7 +1092,16 @@ def run(ctx):
             ctx.run("hedge_tree", b)
         for b in ublocks:
             ctx.run("hedge_reuse", b)
+        for b in cblocks:
+            ctx.run("hedge_cross", b)
+        for b in sblocks:
+            ctx.run("hedge_shared_feature", b)
+        for b in zblocks:
+            ctx.run("hedge_lazy", b)
     else:
         ctx.run_parallel("feature_tree", fblocks)
         ctx.run_parallel("hedge_tree", hblocks)
         ctx.run_parallel("hedge_reuse", ublocks)
+        ctx.run_parallel("hedge_cross", cblocks)
+        ctx.run_parallel("hedge_shared_feature", sblocks)
+        ctx.run_parallel("hedge_lazy", zblocks)
